@@ -1,1 +1,49 @@
-(* C07_quat placeholder *)
+(* C07_quat.v — Quaternion vs QuaternionArray twins, q2R and rpy2q 1-D vs 2-D: the regenerated array copy on a one-row
+   (and two-row) batch equals the regenerated scalar copy, as outcomes (raising paths included), for all reals. *)
+From Coq Require Import Reals List Lra.
+From AhrsLib Require Import Base.
+From AhrsGen Require Import C07gen_R.
+From AhrsProps Require Import C07_tac.
+Import ListNotations.
+Open Scope R_scope.
+
+Definition nz4 (w x y z : R) : Prop := 0 < w*w + x*x + y*y + z*z.
+Definition in_range (a : R) : Prop := - 2 * PI <= a <= 2 * PI.
+
+Lemma conj_twin w x y z : C07_conj_b1_R w x y z = C07_conj_s_R w x y z.
+Proof. unfold C07_conj_b1_R, C07_conj_s_R. twin_q. Qed.
+Lemma conj_S_twin w x y z : C07_conj_S_b1_R w x y z = C07_conj_S_s_R w x y z.
+Proof. unfold C07_conj_S_b1_R, C07_conj_S_s_R. twin_q. Qed.
+Lemma conj_twin2 k_w k_x k_y k_z w x y z : nz4 k_w k_x k_y k_z ->
+  C07_conj_b2_R k_w k_x k_y k_z w x y z = C07_conj_s_R w x y z.
+Proof. unfold nz4. intros Hk. unfold C07_conj_b2_R, C07_conj_s_R. twin_q. Qed.
+
+Lemma to_angles_twin w x y z : C07_to_angles_b1_R w x y z = C07_to_angles_s_R w x y z.
+Proof. unfold C07_to_angles_b1_R, C07_to_angles_s_R. twin_q. Qed.
+Lemma to_angles_S_twin w x y z : C07_to_angles_S_b1_R w x y z = C07_to_angles_S_s_R w x y z.
+Proof. unfold C07_to_angles_S_b1_R, C07_to_angles_S_s_R. twin_q. Qed.
+Lemma to_angles_twin2 k_w k_x k_y k_z w x y z : nz4 k_w k_x k_y k_z ->
+  C07_to_angles_b2_R k_w k_x k_y k_z w x y z = C07_to_angles_s_R w x y z.
+Proof. unfold nz4. intros Hk. unfold C07_to_angles_b2_R, C07_to_angles_s_R. twin_q. Qed.
+
+Lemma to_DCM_twin w x y z : C07_to_DCM_b1_R w x y z = C07_to_DCM_s_R w x y z.
+Proof. unfold C07_to_DCM_b1_R, C07_to_DCM_s_R. twin_q. Qed.
+Lemma to_DCM_S_twin w x y z : C07_to_DCM_S_b1_R w x y z = C07_to_DCM_S_s_R w x y z.
+Proof. unfold C07_to_DCM_S_b1_R, C07_to_DCM_S_s_R. twin_q. Qed.
+Lemma to_DCM_twin2 k_w k_x k_y k_z w x y z : nz4 k_w k_x k_y k_z ->
+  C07_to_DCM_b2_R k_w k_x k_y k_z w x y z = C07_to_DCM_s_R w x y z.
+Proof. unfold nz4. intros Hk. unfold C07_to_DCM_b2_R, C07_to_DCM_s_R. twin_q. Qed.
+
+Lemma q2R_v1_twin w x y z : C07_q2R_v1_b1_R w x y z = C07_q2R_v1_s_R w x y z.
+Proof. unfold C07_q2R_v1_b1_R, C07_q2R_v1_s_R. twin_q. Qed.
+Lemma q2R_v2_twin w x y z : C07_q2R_v2_b1_R w x y z = C07_q2R_v2_s_R w x y z.
+Proof. unfold C07_q2R_v2_b1_R, C07_q2R_v2_s_R. twin_q. Qed.
+Lemma q2R_v1_twin2 k_w k_x k_y k_z w x y z : C07_q2R_v1_b2_R k_w k_x k_y k_z w x y z = C07_q2R_v1_s_R w x y z.
+Proof. unfold C07_q2R_v1_b2_R, C07_q2R_v1_s_R. twin_q. Qed.
+
+(* construction from roll-pitch-yaw: equal on the scalar path's accepted range (the array path has no range check) *)
+Lemma from_rpy_twin a0 a1 a2 : in_range a0 -> in_range a1 -> in_range a2 ->
+  C07_from_rpy_b1_R a0 a1 a2 = C07_from_rpy_s_R a0 a1 a2.
+Proof. unfold in_range. intros H0 H1 H2. unfold C07_from_rpy_b1_R, C07_from_rpy_s_R. twin_t. Qed.
+Lemma rpy2q_twin a0 a1 a2 : C07_rpy2q_b1_R a0 a1 a2 = C07_rpy2q_s_R a0 a1 a2.
+Proof. unfold C07_rpy2q_b1_R, C07_rpy2q_s_R. twin_t. Qed.
